@@ -65,6 +65,31 @@ def pre_file_size_sum(f, s):
     return False, "PackageFileEntry construction not found"
 
 
+def pre_file_size_iter_sum(f, s):
+    """`self.files.values().map(|e| e.size).sum()` - the iterator form of the accumulation above."""
+    import idioms
+    tb = TermBuilder(s.body)
+    t = tb.term(s.call.args[0])
+    r = render(t)
+    if "self.files" not in r or not s.call.gargs or s.call.gargs[-1] != "u64":
+        return False, "sum() is not over self.files into u64 (%s)" % r[:120]
+    rets = []
+    def walk(x):
+        if isinstance(x, tuple):
+            if x and x[0] == "agg" and len(x) > 3 and x[1] == "closure":
+                ret, _pn = idioms._closure_ret(f, x)
+                rets.append(render(ret) if ret is not None else "?")
+            for y in x:
+                walk(y)
+        elif isinstance(x, list):
+            for y in x:
+                walk(y)
+    walk(t)
+    if len(rets) != 1 or not re.search(r"\.size$", rets[0]):
+        return False, "the summed items are %s, not each entry's size" % rets
+    return pre_file_size_sum(f, s)
+
+
 def pre_counter_per_element(f, s):
     b = s.body
     inloop = any(s.bb in blks for (_h, blks) in b.loops())
@@ -179,6 +204,7 @@ ALLOW = {
     "timestamp::Timestamp::now|unwrap|std::result::Result::<T, E>::unwrap|#0": ("system clock outside 1970..2106", pre_env_clock),
     "builder::PackageBuilder::prepare_data|assert|Overflow(Add)|#0": ("sum of in-memory content lengths", pre_file_size_sum),
     "builder::PackageBuilder::prepare_data|assert|Overflow(Add)|#1": ("inode counter", pre_counter_per_element),
+    "builder::PackageBuilder::prepare_data|iter-arith|std::iter::Iterator::sum|#0": ("sum of in-memory content lengths (iterator form)", pre_file_size_iter_sum),
     "builder::PackageBuilder::prepare_data|unwrap|std::option::Option::<T>::unwrap|#0": ("the directory of every file was inserted when the file was added", pre_dir_inserted),
     "builder::PackageBuilder::prepare_data|unwrap|std::result::Result::<T, E>::expect|#0": ("total size fits u32 on this branch", pre_not_large),
     "builder::PackageBuilder::prepare_data|unwrap|std::result::Result::<T, E>::expect|#1": ("every size fits u32 on this branch", pre_not_large),
@@ -187,8 +213,7 @@ ALLOW = {
     "headers::header::Header::<T>::create_region_tag|assert|OverflowNeg|#0": ("negating the constant 16", pre_inmemory),
     "headers::header::Header::<T>::create_region_tag|assert|Overflow(Mul)|#0": ("(records + 1) * -16 in i32", pre_inmemory),
     "headers::header::Header::<T>::create_region_tag|unwrap|std::result::Result::<T, E>::expect|#0": ("writing to a Vec cannot fail", pre_vec_sink),
-    "headers::header::IndexData::append|assert|Overflow(Add)|#0": ("alignment counter", pre_alignment_loop),
-    "headers::header::IndexData::append|assert|Overflow(Add)|#1": ("alignment counter", pre_alignment_loop),
+    "headers::header::IndexData::append|assert|Overflow(Add)|#*": ("alignment counter", pre_alignment_loop),
     "payload::Writer::<W>::do_finish|assert|Overflow(Add)|#0": ("header length + u32 file size in usize", pre_header_len),
     "<std::marker::PhantomData<T> as rpm::signature::traits::Signing>::sign|panic|core::panicking::panic_fmt|#0": ("placeholder signer", pre_placeholder),
 }
@@ -320,6 +345,21 @@ def run(f, fixture, rep, cfg, tier):
             names = [u.decl for u in users]
             ok = any(re.search(r"(ok_or|ok_or_else|map_err)$", x) for x in names) or any(x == "std::ops::Try::branch" for x in names)
             bad = any(re.search(r"::(unwrap|expect)$", x) for x in names)
+            if not ok and not bad:
+                # `let Some(x) = p.parent() else { return Err(..) }` / `match p.file_name() { None => return Err(..), .. }`:
+                # the failure edge of the match reaches no success return
+                from common import users_switches, arms_of, ok_assign_blocks
+                from pathsens import ps_reach
+                oks_ = set(ok_assign_blocks(ad))
+                from pathsens import canon
+                kc_ = canon(ad, c.dest)
+                for sb_ in sorted(ad.reachable()):
+                    i_ = switch_info(ad, sb_)
+                    if i_ and i_["kind"] == "discr" and i_.get("place") is not None and canon(ad, i_["place"]) == kc_:
+                        a_ = arms_of(ad, i_)
+                        fail = a_.get("None", a_.get("Err"))
+                        if fail is not None and not (ps_reach(ad, fail) & oks_) and oks_:
+                            ok = True
             rep.check(ok and not bad, "D", "add_data|%s" % c.decl.rsplit("::", 1)[-1], "%s's failure is turned into an error" % c.decl,
                       "%s's None/Err is %s" % (c.decl, "unwrapped" if bad else "not converted into an error (%s)" % names), c.loc())
     rep.floor("D", "Path decomposition calls in add_data", n, 3)
